@@ -431,7 +431,7 @@ Lemma re_compile_unfold ci text :
   let '(en, body) := if ends_with_dollar body then (true, removelast body) else (false, body) in
   if st && match body with 42 :: _ | 43 :: _ | 63 :: _ => true | _ => false end then CUnsupported else
   match parse_alt ((S (S (length body))) * 4)%nat body with
-  | POk r [] => CPat (mkPat ci st en r)
+  | POk r [] => if alt_anchor st en r then CUnsupported else CPat (mkPat ci st en r)
   | POk _ (41 :: _) => CInvalid
   | POk _ _ => CUnsupported
   | PErr true => CUnsupported
